@@ -65,8 +65,9 @@ def children(t):
         return [((1,), t[1], [])]
     if k == "tyfun":
         return [((1,), t[1], []), ((2,), t[2], [])]
-    if k == "tyrec":     # ("tyrec", [(f, C)]): {f | C, ..}
-        return [((1, i, 1), c, []) for i, (f, c) in enumerate(t[1])]
+    if k == "tyrec":     # ("tyrec", [(f, C)]): {f | C, ..} -- a record literal: the field names are in scope in C
+        ns = [f for f, _ in t[1]]
+        return [((1, i, 1), c, ns) for i, (f, c) in enumerate(t[1])]
     if k == "annx":      # ("annx", e, C): e | C with C an arbitrary expression
         return [((1,), t[1], []), ((2,), t[2], [])]
     if k == "recann":    # ("recann", [(f, C or None, e)]): {f | C = e, ...}; annotations see the fields
@@ -77,6 +78,9 @@ def children(t):
                 res.append(((1, i, 1), c, ns))
             res.append(((1, i, 2), e, ns))
         return res
+    if k == "recmeta":   # ("recmeta", [(f, None|"default"|"force", e)]): {f | force = e, ...}
+        ns = [f for f, _, _ in t[1]]
+        return [((1, i, 2), e, ns) for i, (f, _, e) in enumerate(t[1])]
     if k == "lets":      # ("lets", rec?, [(x, e)], body): multi-binding let / let rec
         ns = [x for x, _ in t[2]]
         res = [((2, i, 1), e, ns if t[1] else []) for i, (x, e) in enumerate(t[2])]
@@ -284,6 +288,8 @@ def nickel(t, imp):
         return "{%s}" % ", ".join(["%s | %s" % (f, nc(c)) for f, c in t[1]] + [".."])
     if k == "recann":
         return "{%s}" % ", ".join("%s%s = %s" % (f, "" if c is None else " | " + nc(c), n(e)) for f, c, e in t[1])
+    if k == "recmeta":
+        return "{%s}" % ", ".join("%s%s = %s" % (f, "" if m_ is None else " | " + m_, n(e)) for f, m_, e in t[1])
     if k == "merge":
         return "(%s & %s)" % (n(t[1]), n(t[2]))
     if k == "eq":
@@ -308,11 +314,21 @@ class Gen:
         self.fn, self.fd = fault_num, fault_den
 
     def fresh(self, unique=False):
-        # names are reused on purpose: shadowing is what distinguishes lexical from dynamic scope
+        # names are reused on purpose: shadowing is what distinguishes lexical from dynamic scope;
+        # binders and record fields draw from one pool, so a let / function parameter / pattern
+        # inside a record literal can rebind the name of a sibling or enclosing field
         if not unique and self.r.chance(1, 3):
-            return self.r.choice(["x", "y", "z", "w"])
+            return self.r.choice(["x", "y", "z", "w"] + FIELDS[:4])
         self.nvar += 1
         return "x%d" % self.nvar
+
+    def binder(self, sc):
+        """A name for a let / lambda binder: often one that is already in scope (a variable or a
+        field of an enclosing record literal), e.g. the self-shadowing idiom let x = f x in .."""
+        names = sorted(self.last_vars(sc))
+        if names and self.r.chance(1, 3):
+            return self.r.choice(names)
+        return self.fresh()
 
     def rand_type(self, d, allow_fun=True):
         c = self.r.below(100)
@@ -367,7 +383,7 @@ class Gen:
         if ty[0] == "rec":
             return self.rec_lit(ty, sc, d)
         if ty[0] == "fun":
-            x = self.fresh()
+            x = self.binder(sc)
             return ("lam", x, self.gen(ty[2], sc + [(x, ty[1])], d - 1))
         if ty[0] == "ctr":
             return self.ctr_lit(ty[1], sc, d)
@@ -397,7 +413,9 @@ class Gen:
             ts = {t for _, t in vt[1]}
             if len(ts) == 1 and r.chance(1, 2):
                 return ("tydict", sub(vt[1][0][1]))
-            return ("tyrec", [(f, sub(t)) for f, t in vt[1]])
+            names = [f for f, _ in vt[1]]
+            inner = [(x, t) for x, t in sc if x not in names]
+            return ("tyrec", [(f, self.gen(("ctr", t), inner, d - 1)) for f, t in vt[1]])
         if vt[0] == "fun":
             return ("tyfun", sub(vt[1]), sub(vt[2]))
         return ("ty", "Dyn")
@@ -462,6 +480,8 @@ class Gen:
                     [(ev, ("lam", nn, ("if", zero, ("bool", True), ("app", ("var", od), dec)))),
                      (od, ("lam", nn, ("if", zero, ("bool", False), ("app", ("var", ev), dec))))],
                     ("app", ("var", r.choice([ev, od])), ("num", r.range(0, 5))))
+        if self.ext and not (isinstance(ty, tuple) and ty[0] == "ctr") and r.chance(1, 10):
+            return self.override_probe(ty, sc, d)
         if self.ext and not (isinstance(ty, tuple) and ty[0] == "ctr") and r.chance(1, 9):
             return ("annx", self.gen(ty, sc, d - 1), self.gen(("ctr", ty), sc, d - 1))
         if self.ext and r.chance(2, 5):
@@ -474,14 +494,14 @@ class Gen:
             if r.chance(1, 6):
                 # a failing binding is fine as long as nobody demands it
                 return ("let", self.fresh(unique=True), self.fault(t1, sc, d), self.gen(ty, sc, d - 1))
-            x = self.fresh()
+            x = self.binder(sc)
             bound = self.gen(t1, sc, d - 1)
             return ("let", x, bound, self.gen(ty, sc + [(x, t1)], d - 1))
         if c < 44:
             t1 = self.rand_type(1, False)
             if r.chance(1, 8):
                 return ("app", ("lam", self.fresh(unique=True), self.gen(ty, sc, d - 1)), self.fault(t1, sc, d))
-            x = self.fresh()
+            x = self.binder(sc)
             f = ("lam", x, self.gen(ty, sc + [(x, t1)], d - 1))
             return ("app", f, self.gen(t1, sc, d - 1))
         if c < 50:
@@ -555,7 +575,7 @@ class Gen:
         rec = r.chance(1, 3)
         names, types = [], []
         for i in range(n):
-            cands = [x for x in sorted(outer) if x not in names and x not in FIELDS]
+            cands = [x for x in sorted(outer) if x not in names]
             if cands and r.chance(1, 2):
                 x = r.choice(cands)
                 # mostly keep the type of the shadowed variable, so that aliases type-check
@@ -618,7 +638,7 @@ class Gen:
                 f0 = [f for f, t in ct[1] if ("ctr", t) == t0]
                 if len({t for _, t in ct[1]}) == 1 and r.chance(1, 2):
                     val = ("tydict", ("var", k))
-                elif f0:
+                elif f0 and k != f0[0]:
                     val = ("tyrec", [(f0[0], ("var", k))])
             elif ct[0] == "fun" and ("ctr", ct[2]) == t0:
                 val = ("tyfun", ("ty", "Dyn"), ("var", k))
@@ -684,6 +704,24 @@ class Gen:
         key = "f%d" % len(self.files)
         self.files[key] = e
         return subst_vars(body, {v: ("import", key)})
+
+    def override_probe(self, ty, sc, d):
+        """A recursive record whose field g (of the requested type) depends on a sibling f, merged
+        with an override of f: laws applied inside g must keep following the override."""
+        r = self.r
+        f, g = r.shuffle(FIELDS)[:2]
+        tf = self.rand_type(0)
+        outer = [(x, t) for x, t in sc if x not in (f, g)]
+        gv = self.gen(ty, outer + [(f, tf)], d - 1)
+        if ("var", f) not in [s2 for _, s2, _ in positions(gv)] and tf == ty:
+            gv = ("var", f)
+        v1, v2 = self.gen(tf, outer, d - 2), self.gen(tf, outer, d - 2)
+        if r.chance(1, 2):
+            base, over = ("rec", [(f, v1), (g, gv)]), ("recmeta", [(f, "force", v2)])
+        else:
+            base, over = ("recmeta", [(f, "default", v1), (g, None, gv)]), ("rec", [(f, v2)])
+        m_ = ("merge", base, over) if r.chance(2, 3) else ("merge", over, base)
+        return ("get", m_, g)
 
     def scope_probe(self, ty, sc, d):
         """Closures whose body mentions a variable of the defining scope, called where that name
@@ -820,6 +858,12 @@ def gen_config(g, d):
         x = g.fresh()
         t = ("let", x, g.gen(g.rand_type(1), [], 2), body)
         prefix = (3,)
+    if g.ext and r.chance(1, 3):
+        atoms = [(f, e) for f, e in body[1] if e[0] != "rec"]
+        if atoms:
+            f, e = r.choice(atoms)
+            t = set_in(t, prefix, ("merge", body, ("recmeta", [(f, "force", g.gen(g.rand_type(0), [], 1) if (r.chance(1, 3) or fvs(e)) else e)])))
+            prefix = prefix + (1,)
     paths = [(p, [prefix + k for k in ks]) for p, ks in paths]
     return t, paths
 
@@ -841,32 +885,50 @@ def rewrites_at(t, key, sub, chain, rng, fresh, files):
         if fv & captured:
             break
         ok_anc.append(akey)
+    in_scope = {b for _, bs in chain for b in bs}
     for kind in ("let", "beta"):
         akey = rng.choice(ok_anc)
         rel = key[len(akey):]
         a = get_in(t, akey)
-        a2 = set_in(a, rel, ("var", v))
+        holes = [(rel, {b for k2, bs in chain if len(k2) >= len(akey) for b in bs})]
         tag = "-top" if akey == () else "-inner" if akey != key else "-here"
         if sub[0] != "var" and rng.chance(1, 2):
             # abstract every occurrence of the sub-expression below the ancestor that means the
             # same thing there (none of its free variables rebound on the way): the bound value is
             # then demanded several times through one thunk
-            n_occ = 0
             for k2, s2, ch2 in list(positions(a)):
-                if s2 == sub and not (fv & {b for _, bs in ch2 for b in bs}):
-                    try:
-                        a2 = set_in(a2, k2, ("var", v))
-                        n_occ += 1
-                    except (IndexError, TypeError):
-                        pass
-            if n_occ > 1:
+                bound_here = {b for _, bs in ch2 for b in bs}
+                if s2 == sub and k2 != rel and not (fv & bound_here) and \
+                        not any(k2[:len(h)] == h or h[:len(k2)] == k2 for h, _ in holes):
+                    holes.append((k2, bound_here))
+            if len(holes) > 1:
                 tag += "-all"
-        new = ("let", v, sub, a2) if kind == "let" else ("app", ("lam", v, a2), sub)
+        ph = "zzHOLE"
+        a2 = a
+        for h, _ in holes:
+            a2 = set_in(a2, h, ("var", ph))
+        # the bound name: anything that is not free in the context and not rebound between the
+        # binder and a hole.  It may be free in `sub` (let is not recursive: `let x = f x in ..`),
+        # and it may be the name of a field of an enclosing record literal.
+        forbidden = (fvs(a2) - {ph}) | {b for _, bs in holes for b in bs}
+        cands = sorted((fv | in_scope | set(FIELDS[:3])) - forbidden)
+        w = v
+        if cands and rng.chance(3, 5):
+            pref = sorted((fv & in_scope) - forbidden)
+            w = rng.choice(pref) if pref and rng.chance(2, 3) else rng.choice(cands)
+            tag += "-shadow" if w in fv else "-named"
+        for h, _ in holes:
+            a2 = set_in(a2, h, ("var", w))
+        new = ("let", w, sub, a2) if kind == "let" else ("app", ("lam", w, a2), sub)
         out.append((kind + tag, set_in(t, akey, new), {}))
+    # the field of the wrapper record sees itself, so its name must not be free in `sub`
+    fcands = sorted((in_scope | set(FIELDS[:3])) - fv)
+    if fcands and rng.chance(1, 2):
+        v = rng.choice(fcands)
     out.append(("field", set_in(t, key, ("get", ("rec", [(v, sub)]), v)), {}))
     out.append(("elem", set_in(t, key, ("at", ("num", 0), ("arr", [sub]))), {}))
     if not fv:
-        out.append(("import", set_in(t, key, ("import", v)), {v: sub}))
+        out.append(("import", set_in(t, key, ("import", fresh)), {fresh: sub}))
     return out
 
 
@@ -1046,7 +1108,7 @@ def corpus_cases():
 def to_tuple(x):
     """json -> tree (lists that are nodes become tuples; child lists stay lists)"""
     if isinstance(x, list) and x and isinstance(x[0], str) and x[0] in BASE | {"interp", "enum", "match", "ann", "merge", "eq", "std", "ptag", "pany", "prec", "lets",
-                                                                              "ty", "tyarr", "tydict", "tyfun", "tyrec", "annx", "recann"}:
+                                                                              "ty", "tyarr", "tydict", "tyfun", "tyrec", "annx", "recann", "recmeta"}:
         k = x[0]
         if k == "arr":
             return ("arr", [to_tuple(e) for e in x[1]])
@@ -1066,6 +1128,8 @@ def to_tuple(x):
             return ("tyrec", [(f, to_tuple(c)) for f, c in x[1]])
         if k == "recann":
             return ("recann", [(f, None if c is None else to_tuple(c), to_tuple(e)) for f, c, e in x[1]])
+        if k == "recmeta":
+            return ("recmeta", [(f, m_, to_tuple(e)) for f, m_, e in x[1]])
         return tuple([k] + [to_tuple(a) if isinstance(a, list) else a for a in x[1:]])
     return x
 
